@@ -255,3 +255,81 @@ def dim_1(ctx, rep, modules=MODULES, minimum=8):
     rep.stat('dim1_computed_indexes', n)
     rep.stat('dim1_functions_returning_text_amounts', n_chars_funcs)
     rep.minimum('DIM-1', minimum, 'computed child indexes')
+
+
+# ---------------------------------------------------------------------------------------------------------------------
+# POS-1  an offset is never recovered by searching for the text
+STR_ONLY_METHODS = {'isidentifier', 'startswith', 'endswith', 'lower', 'upper', 'strip', 'lstrip', 'rstrip', 'encode', 'isdigit',
+                    'isalpha', 'isalnum', 'isspace', 'splitlines', 'expandtabs', 'casefold', 'isascii', 'isnumeric', 'join'}
+
+
+def _is_text_value(f, name):
+    """Is the local / parameter ``name`` a string?  Evidence inside the function: a str-only method is called on it or on
+    what iterating over it gives, it is concatenated with a string literal, or sliced and compared with one."""
+    elems = set()
+    for n in walk_own(f.node):
+        if isinstance(n, (ast.For, ast.comprehension)) and isinstance(n.iter, ast.Name) and n.iter.id == name:
+            for t in ast.walk(n.target):
+                if isinstance(t, ast.Name):
+                    elems.add(t.id)
+        if isinstance(n, (ast.For, ast.comprehension)) and isinstance(n.iter, ast.Call) and isinstance(n.iter.func, ast.Name) \
+                and n.iter.func.id == 'enumerate' and n.iter.args and isinstance(n.iter.args[0], ast.Name) and n.iter.args[0].id == name \
+                and isinstance(n.target, ast.Tuple) and len(n.target.elts) == 2 and isinstance(n.target.elts[1], ast.Name):
+            elems.add(n.target.elts[1].id)
+    for n in walk_own(f.node):
+        if isinstance(n, ast.Call) and isinstance(n.func, ast.Attribute) and n.func.attr in STR_ONLY_METHODS \
+                and isinstance(n.func.value, ast.Name) and (n.func.value.id == name or n.func.value.id in elems):
+            return True
+        if isinstance(n, ast.BinOp) and isinstance(n.op, ast.Add):
+            for a, b in ((n.left, n.right), (n.right, n.left)):
+                if isinstance(a, ast.Name) and a.id == name and isinstance(b, (ast.Constant, ast.JoinedStr)) \
+                        and isinstance(getattr(b, 'value', ''), str):
+                    return True
+    return False
+
+
+def pos1_sites(f):
+    """calls  <text>.index(<variable>) / .find / .rfind / .rindex  in a function"""
+    out = []
+    for n in walk_own(f.node):
+        if isinstance(n, ast.Call) and isinstance(n.func, ast.Attribute) and n.func.attr in ('index', 'find', 'rindex', 'rfind') \
+                and n.args and not isinstance(n.args[0], ast.Constant):
+            recv = n.func.value
+            texty = False
+            if isinstance(recv, ast.Attribute) and recv.attr in TEXT_ATTRS:
+                texty = True
+            elif isinstance(recv, ast.Name):
+                g = f
+                while g is not None and not texty:          # a closure reads the variable of the enclosing function
+                    texty = recv.id in TEXT_ATTRS or _is_text_value(g, recv.id)
+                    g = getattr(g, 'outer', None)
+            if texty:
+                out.append(n)
+    return out
+
+
+def pos_1(ctx, rep, modules=('parso/python/tokenize.py', 'parso/python/prefix.py', 'parso/tree.py', 'parso/python/tree.py',
+                             'parso/python/diff.py', 'parso/utils.py')):
+    rep.rule('POS-1', 'where positions are computed, the offset of a piece of text is never recovered by searching for that text '
+                      '(text.index(part) / find): the search returns the first occurrence, which is another place as soon as the '
+                      'piece occurs twice')
+    import types
+    probe_src = "def f(token, start):\n    for ch in token:\n        if ch.isidentifier():\n            found = ch\n    return start + token.index(found)\n"
+    probe = ast.parse(probe_src).body[0]
+    for parent in ast.walk(probe):
+        for child in ast.iter_child_nodes(parent):
+            child._parent = parent
+    if len(pos1_sites(types.SimpleNamespace(node=probe))) != 1:
+        raise AnalysisError('POS-1: the matcher does not report its built-in example')
+    n_funcs = 0
+    for rel in modules:
+        mod = ctx.prog.mod(rel)
+        for f in sorted(mod.funcs.values(), key=lambda f: f.qual):
+            n_funcs += 1
+            for call in pos1_sites(f):
+                rep.ob('POS-1', rel, f.qual, ast.unparse(call), False,
+                       'the offset of %s inside the text is looked up by value: when the same piece occurs earlier in the text, '
+                       'the earlier offset is returned and the position derived from it is wrong' % ast.unparse(call.args[0]),
+                       witness=ast.unparse(call))
+    rep.ob('POS-1', 'parso', '<position-computing modules>', 'no offset obtained by searching for variable text (%d functions)' % n_funcs, True)
+    rep.stat('pos1_functions', n_funcs)
